@@ -35,6 +35,7 @@ func c09(c *Ctx) {
 	c.rulePairing("C09.5/read-path-lock-pairing", []string{"embedded/store"}, storeReturnsHolding)
 	c09EntryCountBounded(c, "C09.6/entry-count-bounded")
 	c09ValueBuffersBounded(c, "C09.7/value-buffers-bounded")
+	c09RecordIsTheRequestedOne(c, "C09.8/record-is-the-requested-transaction")
 	// ---- C09.1 must-validate ------------------------------------------------------------------------------------
 	r := "C09.1/must-validate"
 	bav := callTo("embedded/store.(*txDataReader).buildAndValidateHtree")
@@ -385,5 +386,62 @@ func c09ValueBuffersBounded(c *Ctx, r string) {
 	}
 	if n < 3 {
 		c.undecided(r, "floor", fmt.Sprintf("%d buffers sized by a stored value length found in embedded/store (4 when the rule was armed)", n))
+	}
+}
+
+// c09RecordIsTheRequestedOne: the hashes of a transaction record prove that the record is consistent in itself, not that
+// it is the record of the transaction that was asked for: a whole record written over another one of the same size
+// passes them. Every function that reads the record of transaction txID (located through the commit log) returns
+// successfully only past a comparison of the id found in the record with txID.
+func c09RecordIsTheRequestedOne(c *Ctx, r string) {
+	n := 0
+	for _, name := range []string{storeT + "readTx", storeT + "ReadTxHeader", storeT + "ReadTxEntry"} {
+		f := c.mustFn(r, name)
+		if f == nil {
+			continue
+		}
+		var txID *ssa.Parameter
+		for _, p := range f.Params {
+			if b, ok := p.Type().Underlying().(*types.Basic); ok && b.Kind() == types.Uint64 {
+				txID = p
+				break
+			}
+		}
+		if txID == nil {
+			c.undecided(r, name, "no uint64 transaction id parameter")
+			continue
+		}
+		n++
+		compared := func(in ssa.Instruction) bool {
+			ifi, ok := in.(*ssa.If)
+			if !ok {
+				return false
+			}
+			for _, leaf := range boolLeaves(ifi.Cond) {
+				bo, ok := leaf.(*ssa.BinOp)
+				if !ok || (bo.Op != token.EQL && bo.Op != token.NEQ) {
+					continue
+				}
+				var other ssa.Value
+				if bo.X == ssa.Value(txID) {
+					other = bo.Y
+				} else if bo.Y == ssa.Value(txID) {
+					other = bo.X
+				}
+				if other != nil && hasFieldSuffix(desc(other), "ID") {
+					return true
+				}
+			}
+			return false
+		}
+		q := &pathQ{fn: f, fromEntry: true, to: successReturn, via: compared}
+		if w := q.bypass(); w != nil {
+			c.fail(r, fnName(f)+":id-compared", c.pos(w[len(w)-1].Pos()), "the record read for transaction txID is handed out without its id having been compared with txID: the record of another transaction written in its place (same size, consistent in itself) is served as the requested one")
+		} else {
+			c.ok(r, fnName(f)+":id-compared", c.pos(f.Pos()), "every successful return passes header.ID == txID")
+		}
+	}
+	if n < 3 {
+		c.undecided(r, "floor", fmt.Sprintf("%d single-transaction readers examined, expected 3", n))
 	}
 }
